@@ -481,12 +481,37 @@ func (d *decider) conditionsOf(sc *ssa.Function, want int, sense int, depth int)
 // right away, -1 when it answers false, 0 when that cannot be told.
 func answerSense(iff *ssa.If, idx int) int {
 	side := func(b *ssa.BasicBlock) int {
-		if ret, ok := b.Instrs[len(b.Instrs)-1].(*ssa.Return); ok && idx < len(ret.Results) && len(b.Instrs) == 1 {
-			if k, ok := ret.Results[idx].(*ssa.Const); ok && k.Value != nil && k.Value.Kind() == constant.Bool {
+		ret, ok := b.Instrs[len(b.Instrs)-1].(*ssa.Return)
+		if !ok || idx >= len(ret.Results) {
+			return 0
+		}
+		answer := func(v ssa.Value) int {
+			if k, ok := v.(*ssa.Const); ok && k.Value != nil && k.Value.Kind() == constant.Bool {
 				if constant.BoolVal(k.Value) {
 					return 1
 				}
 				return -1
+			}
+			return 0
+		}
+		if len(b.Instrs) == 1 {
+			return answer(ret.Results[idx])
+		}
+		// `return a && b`: the block that returns joins the alternatives in a phi; the edge from
+		// this branch carries the constant the short-circuit answers with
+		if phi, ok := ret.Results[idx].(*ssa.Phi); ok && phi.Block() == b {
+			onlyPhisAndReturn := true
+			for _, ins := range b.Instrs[:len(b.Instrs)-1] {
+				if _, isPhi := ins.(*ssa.Phi); !isPhi {
+					onlyPhisAndReturn = false
+				}
+			}
+			if onlyPhisAndReturn {
+				for i, p := range b.Preds {
+					if p == iff.Block() {
+						return answer(phi.Edges[i])
+					}
+				}
 			}
 		}
 		return 0
